@@ -64,12 +64,20 @@ def contents(rnd, n):
     return out
 
 
+# files given as bytes (hex after the marker): sources with a PEP 263 coding declaration other than UTF-8
+BYTES = "\x01bytes:"
+CODED_FILES = [BYTES + b.hex() for b in (
+    b"# coding: latin-1\nx = '\xe9'  # \xe9\n", b"# -*- coding: utf-7 -*-\nx = '+AOk-'\n", b"#!/usr/bin/env xonsh\n# vim: set fileencoding=latin-1 :\ny = '\xfc' 1\n",
+    b"# coding: latin-1\n$X = '\xe9'\nwith! c:\n    raw \xe9\nf!(\xfc)\n", b"# coding: cp1252\nz = f'{a=}\x80' +\n", b"\xef\xbb\xbf# coding: utf-8\nx = '\xc3\xa9'\n",
+    b"# coding: unicode_escape\nx = 'a\\x41'\n")]
+
+
 def run_env(envname, texts):
     d = tempfile.mkdtemp(prefix="xv_c12_")
     try:
         for i, t in enumerate(texts):
             with open(os.path.join(d, f"c{i:05d}.xsh"), "wb") as f:
-                f.write(t.encode("utf-8"))
+                f.write(bytes.fromhex(t[len(BYTES):]) if t.startswith(BYTES) else t.encode("utf-8"))
         env = {k: v for k, v in os.environ.items() if not k.startswith(("LC_", "LANG", "PYTHONUTF8", "PYTHONCOERCE", "PYTHONIOENCODING"))}
         env.update(ENVS[envname])
         env["PYTHONHASHSEED"] = "0"
@@ -91,7 +99,7 @@ def run_shard(shard):
         texts, envname = ([c["prev"]] if c.get("prev") is not None else []) + [c["text"]], c["env"]
     else:
         rnd = random.Random(f"{shard['seed']}:{shard.get('idx', 0)}")
-        texts = (NONASCII + gen_xonsh.UNTERMINATED[:40] if shard.get("idx", 0) == 0 else []) + contents(rnd, shard["n"])
+        texts = (NONASCII + CODED_FILES + gen_xonsh.UNTERMINATED[:40] if shard.get("idx", 0) == 0 else []) + contents(rnd, shard["n"])
         envname = shard["env"]
     res, err = run_env(envname, texts)
     if res is None:
@@ -119,7 +127,7 @@ def run_shard(shard):
             continue
         for name, enc in c["opened"]:
             acc.seen("encodings_of_opened_files", str(enc).lower())
-            if str(enc).lower().replace("_", "-") not in ("utf-8", "utf8", "utf-8-sig"):
+            if str(enc).lower().replace("_", "-") not in ("utf-8", "utf8", "utf-8-sig") and not t.startswith(BYTES):  # (a declared encoding is what the file says)
                 acc.violation("source-file-not-read-as-utf8", case, {"file": name, "encoding": enc})
         if not c["opened"]:
             acc.count("spy_saw_no_open")
